@@ -319,6 +319,8 @@ func doParsing(mp *msgParser) (err error) {
 // parseGroup iterates through a repeating group to maintain correct order of those fields.
 func parseGroup(mp *msgParser, tags []Tag) {
 	mp.foundBody = true
+	// The count field itself belongs to the body, also when nothing of the group follows it.
+	mp.trailerBytes = mp.rawBytes
 	dm := mp.msg.fields[mp.fieldIndex : mp.fieldIndex+1]
 	fields := getGroupFields(mp.msg, tags, mp.appDataDictionary)
 
